@@ -340,6 +340,22 @@ def stepDriver (d : DSt) (op implObs : String) : DSt × String × List String :=
     match st1.panicked with
     | some why => ({ d with s := some st1, knownPeers := known }, "model-panic:" ++ why, [s!"C04 model-predicts-panic why={why.replace " " "_"}"])
     | none =>
+      -- the allowed-fast set sent to a peer depends on a SHA-1 of its address: taken from the implementation,
+      -- checked for admissibility (distinct, in range, at most `AllowedFastSet` many)
+      let (st1, afErrs) := impl.foldl (fun (acc : St × List String) (kv : String × String) =>
+        let (st, errs) := acc
+        let (k, v) := kv
+        if k.startsWith "p" && (k.drop 1).toString.toNat?.isSome then
+          let pk := (k.drop 1).toString.toNat?.getD 0
+          let idx := (commaList v).filterMap fun msg =>
+            match msg.splitOn ":" with
+            | ["allowedfast", i] => i.toNat?
+            | _ => none
+          if idx.isEmpty then (st, errs) else
+          let bad := idx.any (· ≥ st.n) || idx.eraseDups.length ≠ idx.length || idx.length > st.cfg.afK || !st.loaded
+          (st.updPeer pk fun p => { p with sentAF := p.sentAF ++ idx },
+           if bad then errs ++ [s!"C03 allowed-fast-set-inadmissible peer={pk}"] else errs)
+        else (st, errs)) (st1, [])
       let implDl := parseDl (((impl.find? fun (k, _) => k = "dl").map (·.2)).getD "-")
       let (st2, errs) := reconcile st1 implDl
       let implIdl := (commaList (((impl.find? fun (k, _) => k = "idl").map (·.2)).getD "-")).map parseNat!
@@ -348,7 +364,7 @@ def stepDriver (d : DSt) (op implObs : String) : DSt × String × List String :=
                    else "inadmissible[" ++ (";".intercalate errs).replace " " "_" ++ "]"
       -- C17: a connection whose handshake failed must be closed, not kept
       let c17hs := if toks.headD "" = "peer" && implVerdict = "refused" then ["C17 failed-handshake-socket-left-open"] else []
-      let viol := oracles s st2 impl d.implDials ++ finalOracle st2 op impl ++ c17hs ++ errs.map (fun e => "C09 picker-choice-inadmissible " ++ e.replace " " "_")
+      let viol := afErrs ++ oracles s st2 impl d.implDials ++ finalOracle st2 op impl ++ c17hs ++ errs.map (fun e => "C09 picker-choice-inadmissible " ++ e.replace " " "_")
         ++ errsI.map (fun e => "C13 metadata-download-inadmissible " ++ e.replace " " "_")
       let implDials := (((impl.find? fun (k, _) => k = "dials").bind fun (_, x) => x.toNat?)).getD d.implDials
       ({ s := some st2, parked := parked, implDials := implDials, knownPeers := known }, renderObs st2 r.verdict outs1 impl dlTok, viol)
